@@ -29,6 +29,7 @@ type gCase struct {
 	Preset []string `json:"preset"` // stored before start-up
 	Order  []string `json:"order"`  // stored one by one, each followed by two restarts
 	Stored bool     `json:"stored"` // dashboard-stored form of the rows
+	Resave bool     `json:"resave"` // finally the first stored integration is stored AGAIN (same name, other range): two rows of one name
 }
 
 // file integration names (sorted); the stored candidates sort before, between and after them, one clashes.
@@ -80,9 +81,10 @@ func gExec(k gCase) (res gResult) {
 	}
 	w := world.New(nil, world.Cfg{Snap: gSnap})
 	type genRec struct {
-		after     string
-		got, want []string
-		err       error
+		after string
+		got   []string
+		wants [][]string // acceptable task sets (several when a name occurs twice: either row may count)
+		err   error
 	}
 	var gens []genRec
 	fileAfter := ""
@@ -99,7 +101,10 @@ func gExec(k gCase) (res gResult) {
 		}
 		res.spare = cap(conf.Integrations) > len(conf.Integrations)
 		load := func(after string) bool {
-			g := genRec{after: after, want: reference(m).Tasks}
+			g := genRec{after: after}
+			for _, a := range resolve(m) {
+				g.wants = append(g.wants, reference(a).Tasks)
+			}
 			func() {
 				defer func() {
 					if r := recover(); r != nil {
@@ -113,7 +118,7 @@ func gExec(k gCase) (res gResult) {
 				}
 			}()
 			gens = append(gens, g)
-			return g.err == nil && sameStrings(g.got, g.want)
+			return g.err == nil && anySame(g.got, g.wants)
 		}
 		defer func() {
 			var ns []string
@@ -137,6 +142,18 @@ func gExec(k gCase) (res gResult) {
 				return
 			}
 		}
+		if k.Resave && len(k.Order) > 0 {
+			ig := gStoreIG(k.Order[0])
+			ig.Refs = []refSpec{{Name: "s1", Start: ig.Refs[0].Start + 1000, Stop: ig.Refs[0].Stop + 1000}}
+			if err := seedDB(w, mix{DBIGs: []igSpec{ig}, Stored: k.Stored}); err != nil {
+				w.HarnessErr = err.Error()
+				return
+			}
+			m.DBIGs = append(append([]igSpec{}, m.DBIGs...), ig)
+			if !load("store "+ig.Name+" AGAIN; restart") || !load("restart") {
+				return
+			}
+		}
 	})
 	if w.HarnessErr != "" {
 		res.harness = w.HarnessErr
@@ -146,9 +163,10 @@ func gExec(k gCase) (res gResult) {
 	res.nontriv = len(k.Order)+len(k.Preset) > 0
 	res.outcome = fmt.Sprintf("ok:%d-generations", len(gens))
 	for i, g := range gens {
-		if g.err == nil && sameStrings(g.got, g.want) {
+		if g.err == nil && anySame(g.got, g.wants) {
 			continue
 		}
+		want := g.wants[0]
 		res.firstBad = i + 1
 		when := "later-generation"
 		if i == 0 {
@@ -159,10 +177,12 @@ func gExec(k gCase) (res gResult) {
 			fileWant = append(fileWant, ig.Name)
 		}
 		detail := fmt.Sprintf("generation %d (%s) of one long-lived config.Root: task set != configured set\nexpected (reference):\n  %s\nloadTasks returned (err=%v):\n  %s\nfile integrations as the Root lists them afterwards: %q (the file says %q)\nearlier generations were correct: %d",
-			i+1, g.after, strings.Join(g.want, "\n  "), g.err, strings.Join(g.got, "\n  "), fileAfter, strings.Join(fileWant, " "), i)
-		class, key := "task-set", "G:task-set:"+when+":"+eClass(m, g.got, g.want)
+			i+1, g.after, strings.Join(want, "\n  "), g.err, strings.Join(g.got, "\n  "), fileAfter, strings.Join(fileWant, " "), i)
+		class, key := "task-set", "G:task-set:"+when+":"+eClass(m, g.got, want)
 		if g.err != nil {
 			class, key = "unexpected-error", "G:unexpected-error:"+when
+		} else if m.dupNames() {
+			key += ":duplicate-name"
 		}
 		res.vio = &fw.Violation{Property: "C20", Class: class, Key: key, Detail: detail}
 		res.outcome = "VIOLATION:" + class
@@ -208,6 +228,9 @@ func gCases(thorough bool) []gCase {
 							continue
 						}
 						out = append(out, gCase{Part: "G", Files: nf, DisE: disE, Preset: preset, Order: append([]string{}, order...), Stored: stored})
+						if len(order) >= 1 && len(order) <= 2 {
+							out = append(out, gCase{Part: "G", Files: nf, DisE: disE, Preset: preset, Order: append([]string{}, order...), Stored: stored, Resave: true})
+						}
 					}
 				})
 			}
@@ -215,6 +238,15 @@ func gCases(thorough bool) []gCase {
 	}
 	sort.SliceStable(out, func(i, j int) bool { return len(out[i].Order) > len(out[j].Order) })
 	return out
+}
+
+func anySame(got []string, wants [][]string) bool {
+	for _, w := range wants {
+		if sameStrings(got, w) {
+			return true
+		}
+	}
+	return false
 }
 
 func gRun(c *fw.Ctx) {
